@@ -293,7 +293,7 @@ macro_rules! fail {
     }};
 }
 
-fn is_floating(ev: &Ev) -> bool { matches!(ev, Ev::Drop(_) | Ev::Canary(_)) }
+fn is_floating(ev: &Ev) -> bool { matches!(ev, Ev::Drop(_) | Ev::Canary(_) | Ev::Bystander(_)) }
 
 impl<'a> Checker<'a>
 {
